@@ -40,6 +40,9 @@ Section Model.
   Variable K : oracles num.
   (* f64::MIN_POSITIVE, the lower bound of the poling-period search *)
   Variable min_positive : num.
+  (* does try_as_periodic_poling reject an explicit period of 0 first? (Gen/ConfigSites.v: cfg_rejects_bad_period, read off the
+     source; the model has no non-finite numbers, so only the zero test appears) *)
+  Variable rejects_bad_period : bool.
 
   Local Notation "a *' b" := (nmul o a b) (at level 40, left associativity).
   Local Notation "a /' b" := (ndiv o a b) (at level 40, left associativity).
@@ -171,6 +174,7 @@ Section Model.
               | inr _ => Ok (PolOn (n0 o) Pos (apod_of_cfg a), [NFPeriodInfinite])
               end)
         | Param period_um =>
+            if rejects_bad_period && neqb o period_um (n0 o) then Err EBadPeriod else
             bind (compute_sign signal pump cs) (fun s =>
               Ok (poling_new (sign_mul s (nabs o period_um) *' u_micro o) (apod_of_cfg a), []))
         end
@@ -289,6 +293,7 @@ Section Model.
     | Ok _ => "ok"
     | Err EThetaSpec => "err:theta_spec" | Err EAutoThetaWithPoling => "err:auto_theta_with_poling"
     | Err ESignalLePump => "err:signal_le_pump" | Err EImpossiblePeriod => "err:impossible_period"
+    | Err EBadPeriod => "err:bad_period"
     | Panic SiteOptThetaUnwrap => "panic:optimum_theta" | Panic SiteComputeSignUnwrap => "panic:compute_sign"
     | Panic SiteOptPeriodUnwrap => "panic:optimum_poling_period" | Panic SiteNelderMeadUnwrap => "panic:nelder_mead"
     | Panic SiteOptimumUnwrap => "panic:try_as_optimum_unwrap"
@@ -303,7 +308,9 @@ Section Model.
       match c_pp c with
       | PCOff => []
       | PCConfig Auto _ => [("optimum_poling_period"%string, cls (optimum_poling_period signal (cfg_pump c) (cfg_cs0 c)))]
-      | PCConfig (Param _) _ => [("compute_sign"%string, cls (compute_sign signal (cfg_pump c) (cfg_cs0 c)))]
+      | PCConfig (Param pu) _ =>
+          if rejects_bad_period && neqb o pu (n0 o) then [("period_check"%string, "err:bad_period"%string)]
+          else [("compute_sign"%string, cls (compute_sign signal (cfg_pump c) (cfg_cs0 c)))]
       end ++
       match poling_step c signal with
       | Ok (pp, _) =>
